@@ -1,5 +1,5 @@
 (* C05 - entity state = last-writer-wins replay of creation and property packets.  Statements only. *)
-From RU Require Import Base Types Defs BitReader World Run WireSpec FrameProofs LwwProofs WorldProofs CreateProofs PlayerProofs StreamProofs.
+From RU Require Import Base Types Defs BitReader World Run WireSpec FrameProofs LwwProofs WorldProofs CreateProofs PlayerProofs StreamProofs Layout LayoutProofs.
 From Coq Require Import Lia.
 Open Scope N_scope.
 
@@ -156,3 +156,10 @@ Proof.
     apply h_nil.
   - vm_compute. split; reflexivity.
 Qed.
+
+(* the byte layout of every packet class is a TABLE (Layout.class_layout) that the translator tools/gen_packets.py regenerates from the
+   __init__ of the packet classes on every run (generated instance theorems: translated layout = class_layout); the model's step function
+   is the table-driven one: the header fields are read by the generic parser from that table and handed to the class's handler *)
+Theorem C05_step_is_table_driven : forall St w c pl, step_class St w c pl = step_layout St w c pl.
+Proof. exact step_class_is_layout. Qed.
+Print Assumptions C05_step_is_table_driven.
